@@ -11,7 +11,7 @@ from hypothesis import strategies as st
 from AegeanTools import cluster
 from AegeanTools.models import ComponentSource
 from vlib import refs
-from vlib.core import Res
+from vlib.core import Res, workdir
 
 PROP = "C19"
 SHARDS = {"quick": 8, "thorough": 16}
@@ -377,7 +377,7 @@ def check_aereg(c):
     for s in srcs:
         s.ra_str, s.dec_str = "00:00:00.00", "+00:00:00.00"
     n = len(srcs)
-    d = tempfile.mkdtemp(prefix="c19_")
+    d = workdir("c19_")
     try:
         save_catalog(os.path.join(d, "in.csv"), srcs)
         rc = AeReg.main(["--input", os.path.join(d, "in_comp.csv"), "--table", os.path.join(d, "out.csv"),
